@@ -12,7 +12,7 @@ import vlib
 from vlib import boollit, coqlist, optz, zlist, zlit
 
 PROPERTY = "C10"
-MODEL_TARGETS = ["Model/Tsl.vo"]
+MODEL_TARGETS = ["Model/Tsl.vo", "Model/TslText.vo"]
 RULE = ("layouts of rank 1-4, tile depth 1-3; bounds from {1,2,3,4,5,6,8}; steps from the induced contiguous "
         "lattice (permuted), padded lattices, random positive steps, repeated steps; dynamic outermost "
         "bound/step; offsets incl. negative and dynamic; a case is non-trivial when the layout has >= 2 "
@@ -37,7 +37,7 @@ def _impl():
 BOUNDS = [1, 2, 3, 4, 5, 6, 8]
 
 
-def gen_layout(rng, allow_dynamic=True, max_total=2048):
+def gen_layout(rng, allow_dynamic=True, max_total=768):
     """Returns (tstrides as list[list[(step,bound)]], offset)."""
     while True:
         rank = rng.choice([1, 1, 2, 2, 2, 3, 3, 4])
@@ -107,13 +107,79 @@ def nontrivial(ts):
     return sum(1 for t in ts for (_, b) in t if b is None or b > 1) >= 2
 
 
+# ---------------------------------------------------------------- text
+import re as _re
+
+_TOK = _re.compile(r"\s*(\[|\]|\(|\)|->|,|:|\?|offset|>|-?\d+)")
+_TOKNAME = {"[": "TLSq", "]": "TRSq", "(": "TLPar", ")": "TRPar", "->": "TArrow", ",": "TComma", ":": "TColon",
+            "?": "TQuest", "offset": "TOffset", ">": "TGreater"}
+
+
+def tokenize(text):
+    """Trusted mini-lexer for the TSL text (the xDSL lexer is the real one)."""
+    pos, toks = 0, []
+    text = text.strip()
+    while pos < len(text):
+        m = _TOK.match(text, pos)
+        if not m:
+            return None
+        t = m.group(1)
+        toks.append(_TOKNAME[t] if t in _TOKNAME else f"(TInt {zlit(int(t))})")
+        pos = m.end()
+    return toks
+
+
+_XCTX = []
+
+
+def _xctx():
+    if not _XCTX:
+        from xdsl.context import Context
+        from snaxc.dialects.tsl import TSL
+        c = Context()
+        c.load_dialect(TSL)
+        _XCTX.append(c)
+    return _XCTX[0]
+
+
+def real_parse(body):
+    """Parse `#tsl.tsl<body>` with the real parser. Returns (ts, off) or None on any error."""
+    from xdsl.parser import Parser
+    c = _xctx()
+    try:
+        a = Parser(c, f"#tsl.tsl<{body}>").parse_attribute()
+        return unmk(a.data)
+    except Exception:
+        return None
+
+
+def mutate_text(rng, body):
+    r = rng.random()
+    if r < 0.4:
+        return body
+    toks = _re.findall(r"\[|\]|\(|\)|->|,|:|\?|offset|-?\d+", body)
+    if not toks:
+        return body
+    i = rng.randrange(len(toks))
+    k = rng.random()
+    if k < 0.3:
+        del toks[i]
+    elif k < 0.6:
+        toks[i] = rng.choice(["?", "3", ",", "]", ")", "->", "offset", ":", "-2"])
+    elif k < 0.8:
+        toks.insert(i, rng.choice(["?", "7", ","]))
+    else:
+        toks = toks + [",", "offset", ":", rng.choice(["?", "4", "-1"])]
+    return " ".join(toks)
+
+
 # ---------------------------------------------------------------- L1
 def correspondence(ctx):
     Stride, TiledStride, TSL = _impl()
     from snaxc.dialects.tsl import TiledStridedLayoutAttr
     rng = ctx.rng
     n = ctx.n(300, 4000)
-    cases = {k: [] for k in ("canon", "allv", "ovl", "dense", "aff", "from", "lccb", "tb")}
+    cases = {k: [] for k in ("canon", "allv", "ovl", "dense", "aff", "from", "lccb", "tb", "print", "parse")}
     meta = {k: [] for k in cases}
     for i in range(n):
         ts, off = gen_layout(rng)
@@ -130,6 +196,21 @@ def correspondence(ctx):
         cases["tb"].append(f"({L}, {coqlist(coqlist(optz(b) for b in bs) for bs in tb)})")
         meta["tb"].append((ts, off))
         ctx.count({"method": "tile_bounds", "layout": str(l)}, nt, f"tb{ts}", "tile_bounds")
+        # textual form: printed tokens, and the real parser on (possibly damaged) text
+        body = str(l)
+        ptoks = tokenize(body)
+        if ptoks is not None:
+            cases["print"].append(f"({L}, {coqlist(ptoks)})")
+            meta["print"].append((ts, off, body))
+            ctx.count({"method": "__str__", "layout": body}, nt, f"pr{ts}{off}", "print")
+        mbody = mutate_text(rng, body)
+        mtoks = tokenize(mbody)
+        if mtoks is not None:
+            got = real_parse(mbody)
+            exp = "None" if got is None else f"(Some {coq_layout(*got)})"
+            cases["parse"].append(f"({coqlist(mtoks + ['TGreater'])}, {exp})")
+            meta["parse"].append((mbody, got))
+            ctx.count({"method": "TSLParser.parse", "text": mbody, "result": str(got)}, nt, f"pa{mbody}", "parse_ok" if got else "parse_err")
         if is_static(ts):
             av = [int(x) for x in l.all_values()]
             cases["allv"].append(f"({L}, {zlist(av)})")
@@ -173,7 +254,8 @@ def correspondence(ctx):
         except Exception as e:  # pragma: no cover
             ctx.notes.append(f"lccb raised {e!r} on {l} / {l2}")
 
-    text = ["From Snax Require Import Base.Prelude Model.Tsl."]
+    text = ["From Snax Require Import Base.Prelude Model.Tsl Model.TslText.",
+            "Definition opt_layout_eqb (a b : option layout) : bool := match a, b with Some x, Some y => layout_eqb x y | None, None => true | _, _ => false end."]
     tests = {
         "canon": "fun c : layout * layout => layout_eqb (canonicalize (fst c)) (snd c)",
         "tb": "fun c : layout * list (list (option Z)) => list_eqb (list_eqb optZ_eqb) (tile_bounds (fst c)) (snd c)",
@@ -183,18 +265,23 @@ def correspondence(ctx):
         "aff": "fun c : layout * list Z * Z => affine_map_eval (fst (fst c)) (snd (fst c)) =? snd c",
         "from": "fun c : option Z * list (option Z) * tstride => tstride_eqb (from_stride (fst (fst c)) (snd (fst c))) (snd c)",
         "lccb": "fun c : layout * layout * Z * list stride => match c with (a, b, s, r) => tstride_eqb (lccb a b s) r end",
+        "print": "fun c : layout * list tok => list_eqb tok_eqb (print_layout (fst c)) (snd c)",
+        "parse": "fun c : list tok * option layout => opt_layout_eqb (parse_layout (fst c)) (snd c)",
     }
     order = list(tests)
+    header = "\n".join(text) + "\n"
+    files = []
     for k in order:
-        text.append(f"Definition cases_{k} := {coqlist(cases[k])}.")
-        text.append(f"Eval vm_compute in failing ({tests[k]}) cases_{k}.")
-    ok, out = vlib.coq_eval("c10", "\n".join(text) + "\n", timeout=900)
-    lists = vlib.parse_all_eval_lists(out)
+        files.append(header + f"Definition cases_{k} := {coqlist(cases[k])}.\n"
+                     f"Eval vm_compute in failing ({tests[k]}) cases_{k}.\n")
+    results = vlib.coq_eval_many("c10_", files, timeout=900, par=8)
     dis = []
-    if not ok or len(lists) != len(order):
-        return [{"name": "cases-file", "detail": out[-2000:]}]
-    for k, bad in zip(order, lists):
-        for idx in bad:
+    for k, (ok, out) in zip(order, results):
+        lists = vlib.parse_all_eval_lists(out)
+        if not ok or len(lists) != 1:
+            dis.append({"name": f"cases-file:{k}", "detail": out[-1500:]})
+            continue
+        for idx in lists[0]:
             dis.append({"name": f"L1:{k}", "case": meta[k][idx], "coq_case": cases[k][idx][:600]})
     return dis
 
@@ -222,12 +309,10 @@ def _perturb(rng, ts):
 
 # ---------------------------------------------------------------- L2: the property on the implementation
 def _roundtrip(l):
-    from xdsl.context import Context
     from xdsl.parser import Parser
     from xdsl.printer import Printer
-    from snaxc.dialects.tsl import TSL, TiledStridedLayoutAttr
-    ctx = Context()
-    ctx.load_dialect(TSL)
+    from snaxc.dialects.tsl import TiledStridedLayoutAttr
+    ctx = _xctx()
     s = io.StringIO()
     Printer(s).print_attribute(TiledStridedLayoutAttr(l))
     t = s.getvalue()
